@@ -389,16 +389,23 @@ func (s *Scheduler) run(emitter Emitter, freq time.Duration) {
 	enqueuec := s.enqueuec
 
 	for {
-		// If there's at least one job ready to be executed, grab it.
-		// If no jobs are ready, this leaves `readyc` as nil. Trying
+		// If there's at least one job ready to be executed and fewer
+		// than `concurrency` results are outstanding, grab it.
+		// Otherwise, this leaves `readyc` as nil. Trying
 		// to insert into a nil channel never resolves so the select
 		// will never pick that path.
+		//
+		// Workers post to donec and immediately come back for more
+		// work, so without the bound on `ongoing` more than
+		// `concurrency` results could be outstanding. donec only has
+		// room for `concurrency` of them: if we exit early, the
+		// workers holding the rest would block on donec forever.
 		readyc := s.readyc
 		var (
 			nextEl *list.Element
 			next   *ScheduledJob
 		)
-		if ready.Len() > 0 {
+		if ready.Len() > 0 && ongoing < s.concurrency {
 			nextEl = ready.Front()
 			next = nextEl.Value.(*ScheduledJob)
 		} else {
